@@ -81,7 +81,8 @@ pub const F_ABOVE: usize = 2;
 pub const F_BUDGET: usize = 3;
 pub const F_HUGE: usize = 4;
 pub const F_REGION: usize = 5;
-pub const FAULT_NAMES: [&str; 6] = ["fail_nth", "fail_burst", "fail_above", "budget", "always_fail_huge", "region_full"];
+pub const F_MOD: usize = 6;
+pub const FAULT_NAMES: [&str; 7] = ["fail_nth", "fail_burst", "fail_above", "budget", "always_fail_huge", "region_full", "fail_every_kth"];
 
 pub struct Heap {
     base: *mut u8,
@@ -103,7 +104,9 @@ pub struct Heap {
     pub n_alloc: u64,
     pub n_dealloc: u64,
     pub n_refused: u64,
-    pub fired: [u64; 6],
+    pub fired: [u64; 7],
+    /// every k-th allocate call is refused (used where faults cannot be attached to operations: the pool world)
+    pub fail_mod: Option<u64>,
     /// Ledger violations detected at call time: (class, message).
     pub errors: Vec<(&'static str, String)>,
     pub handles_created: u64,
@@ -135,7 +138,8 @@ impl Heap {
             n_alloc: 0,
             n_dealloc: 0,
             n_refused: 0,
-            fired: [0; 6],
+            fired: [0; 7],
+            fail_mod: None,
             errors: Vec::new(),
             handles_created: 0,
             handles_dropped: 0,
@@ -161,7 +165,8 @@ impl Heap {
         self.n_alloc = 0;
         self.n_dealloc = 0;
         self.n_refused = 0;
-        self.fired = [0; 6];
+        self.fired = [0; 7];
+        self.fail_mod = None;
         self.errors.clear();
         self.handles_created = 0;
         self.handles_dropped = 0;
@@ -226,6 +231,11 @@ impl Heap {
         }
         if self.op_fail_nth == Some(self.op_calls) {
             return self.refuse(F_NTH, layout);
+        }
+        if let Some(k) = self.fail_mod {
+            if self.n_alloc % k == 0 {
+                return self.refuse(F_MOD, layout);
+            }
         }
         if self.burst_left > 0 {
             self.burst_left -= 1;
